@@ -162,3 +162,65 @@ CHECKS.append(Check("jac", [f"{TR}.jac.Jac.__init__", f"{TR}.jac.Jac._differenti
                             f"{TR}.jac._extract_sub_matrices", f"{TR}.jac._reshape_matrices",
                             f"{TR}._differentiate._Differentiate.__init__", f"{TR}._utils.ordered_set"], jac_check,
                     replay_keys=["C15.Jac", "C07", "C13"]))
+
+
+# ----------------------------------------------------------------------------- Aggregate (isolated, vs. spec_aggregate)
+
+
+def aggregate_check(H):
+    from tjv.pyvc.lten import AbstractAgg
+
+    def body(cx):
+        it = H.interp(cx, loop_specs=A.LOOPS, overrides=A.OVERRIDES)
+        K = A.tensor_list(cx, "K", distinct=True)
+        agg = AbstractAgg(cx, may_raise=True)
+        kind, tr = call_catch(lambda: it.call(H.repo.get(f"{TR}.aggregate.Aggregate"), [agg, K]))
+        cx.oblige("C15.aggregate.ctor_no_raise", kind == "return")
+        if kind != "return":
+            return
+        m = z3.Int("m")
+        cx.assume(m >= 0)
+        jf = cx.fresh_func("jac", A.TenS, A.IntS, A.IntS, A.RealS)
+        order = A.arbitrary_order(cx, it, K)
+        jm = V.SymMap(order, lambda t: LTen(V.Shape([m], V.TRef(t).shape.tail), lambda ix, t=t: jf(t, ix[0], ix[1]), fresh=False))
+        jac = it.call(H.repo.get(f"{TR}.tensor_dict.Jacobians"), [jm])
+        kind, out = call_catch(lambda: it.call(tr, [jac]))
+        rejected = [e for e in cx.events if e[0] == "agg_reject"]
+        if kind == "raise":
+            cx.oblige("C15.aggregate.raises_only_if_aggregator_rejects", len(rejected) == 1 and out.cls == "ValueError")
+            return
+        n = K.length
+        if not agg.calls:
+            cx.oblige("C15.aggregate.aggregator_skipped_only_without_keys", n == 0)
+            cx.oblige("C15.aggregate.empty_result_without_keys", out.cls.name == "EmptyTensorDict")
+            return
+        cx.oblige("C15.aggregate.aggregator_called_once", len(agg.calls) == 1)
+        cx.oblige("C15.aggregate.type", out.cls.name == "Gradients")
+        M, aggout = agg.calls[0]
+        offK = A.offsets(it, K)
+        # aggregator input: column block i (in key_order = K) is the matrixified jacobian of key K[i]
+        i, r, c = cx.fresh_int("i"), cx.fresh_int("r"), cx.fresh_int("c")
+        cx.assume(z3.And(0 <= i, i < n, 0 <= r, r < m, 0 <= c, c < A.numel(K.get(i).ref)))
+        cx.oblige("C15.aggregate.input_shape", z3.And(lift(M.shape.lead[0]) == m, lift(M.shape.lead[1]) == offK.total()))
+        cx.oblige("C15.aggregate.input_post", M.elem([r, offK.off(i) + c]) == jf(K.get(i).ref, r, c))
+        # output: key K[i] gets its own slice, reshaped to its shape
+        om = P.to_symmap(it, out.payload)
+        x = K.get(i).ref
+        cx.oblige("C15.aggregate.keys", P.map_dom(it, om)(x))
+        v = om.get(x)
+        cx.oblige("C15.aggregate.output_shape", v.shape.eq(V.TRef(x).shape))
+        cx.oblige("C15.aggregate.output_post", v.elem([c]) == aggout(offK.off(i) + c))
+    H.explore(body, max_paths=3000)
+
+
+CHECKS.append(Check("aggregate", [f"{TR}.aggregate.Aggregate.__init__", f"{TR}.aggregate.Aggregate._compute",
+                                  f"{TR}.aggregate._Matrixify.__init__", f"{TR}.aggregate._Matrixify._compute",
+                                  f"{TR}.aggregate._AggregateMatrices.__init__", f"{TR}.aggregate._AggregateMatrices._compute",
+                                  f"{TR}.aggregate._AggregateMatrices._select_ordered_subdict",
+                                  f"{TR}.aggregate._AggregateMatrices._aggregate_group", f"{TR}.aggregate._AggregateMatrices._unite",
+                                  f"{TR}.aggregate._AggregateMatrices._disunite", f"{TR}.aggregate._Reshape.__init__",
+                                  f"{TR}.aggregate._Reshape._compute", f"{TR}.base.Composition.__init__",
+                                  f"{TR}.base.Composition._compute", f"{TR}.tensor_dict.JacobianMatrices._check_key_value_pair",
+                                  f"{TR}.tensor_dict.GradientVectors._check_key_value_pair",
+                                  f"{TR}.tensor_dict._check_value_n_dim", f"{TR}.tensor_dict._check_corresponding_numel"],
+                    aggregate_check, replay_keys=["C15.Aggregate", "C01."]))
